@@ -355,6 +355,32 @@ theorem C05_injective (m n : Nat) (r r' : Bytes) (h : leb m ++ r = leb n ++ r') 
   simp only [Option.some.injEq, Prod.mk.injEq] at h1
   exact ⟨h1.1.symm, h1.2.symm⟩
 
+/-- the length of the encoding is monotone in the (unsigned) value: a larger number never takes fewer bytes -/
+theorem C05_len_monotone (m n : Nat) (h : m ≤ n) : (leb m).length ≤ (leb n).length := by
+  have hpos : 1 ≤ (leb n).length := by
+    have hne := leb_ne_nil n
+    have : (leb n).length ≠ 0 := fun h0 => hne (List.length_eq_zero_iff.mp h0)
+    omega
+  have hn := (leb_length_le n (leb n).length hpos).mp (Nat.le_refl _)
+  exact (leb_length_le m _ hpos).mpr (by omega)
+
+/-- every VarInt takes 1..5 bytes and every VarLong 1..10 (with C05_varint_len / C05_varlong_len: the same bounds for
+`Len()`), so `MaxVarIntLen` / `MaxVarLongLen` are exactly the caps a reader needs (C05_varint_cap) -/
+theorem C05_len_bounds (v : BitVec 32) (w : BitVec 64) :
+    1 ≤ (leb v.toNat).length ∧ (leb v.toNat).length ≤ 5 ∧ 1 ≤ (leb w.toNat).length ∧ (leb w.toNat).length ≤ 10 := by
+  have pos : ∀ n, 1 ≤ (leb n).length := by
+    intro n
+    have hne := leb_ne_nil n
+    have : (leb n).length ≠ 0 := fun h0 => hne (List.length_eq_zero_iff.mp h0)
+    omega
+  have hv := v.isLt
+  have hw := w.isLt
+  refine ⟨pos _, (leb_length_le _ 5 (by omega)).mpr ?_, pos _, (leb_length_le _ 10 (by omega)).mpr ?_⟩
+  · have : (128:Nat) ^ 5 = 34359738368 := by decide
+    omega
+  · have : (128:Nat) ^ 10 = 1180591620717411303424 := by decide
+    omega
+
 /-! ### Non-vacuity -/
 example : Gen.VarInt_WriteToBytes (-1 : BitVec 32) = [0xff, 0xff, 0xff, 0xff, 0x0f] := by decide
 example : (varIntRead (Stream.ofBytes [0x80, 0x80, 0x80, 0x80, 0x80, 0x00])).1 = Res.err := by decide
